@@ -117,8 +117,18 @@ class Universe:
         src += PRELUDE_PLAIN if prelude is None else prelude
         src += prelude_extra + "\n"
         self.frozen = frozen
+        import os as _os
+
+        # "early introspection" configuration: a schema registry that asks every class for its property / child fields
+        # right after the class statement - while classes named in its (postponed / quoted) annotations may not exist yet;
+        # a call that cannot answer yet raises and must leave no trace
+        self.early_introspection = _os.environ.get("VERIF_EARLY_INTROSPECT") == "1"
+        if self.early_introspection:
+            src += "\ndef _verif_early(cls):\n    for m in ('get_property_fields', 'get_child_fields'):\n        try:\n            getattr(cls, m)()\n        except Exception:\n            pass\n\n"
         for s in specs:
             src += self.render_class(s, frozen) + "\n"
+            if self.early_introspection:
+                src += f"_verif_early({s.name})\n\n"
         self.source = src
         self.module = types.ModuleType(name)
         self.module.__dict__["__name__"] = name
@@ -505,6 +515,17 @@ def core_specs(P: str = "U", variant: int = 0) -> list[CS]:
                 FS("pb", "prop", "str", "str", default='""'),
             ),
         ),
+        # a real forward reference: the class named in the (quoted) annotations is defined further down
+        CS(
+            f"{P}Fwd",
+            (E,),
+            F(
+                FS("target", "prop", "str", "str", default='""'),
+                FS("value", "child", repr(f"{P}FwdLate | None"), "opt", (f"{P}FwdLate",), default="None"),
+                FS("extra", "child", repr(f"tuple[{P}FwdLate, ...]"), "tuple", (f"{P}FwdLate",), default="()"),
+            ),
+        ),
+        CS(f"{P}FwdLate", (E,), F(FS("text", "prop", "str", "str", default='""'), FS("back", "child", f"{P}Fwd | None", "opt", (f"{P}Fwd",), default="None"))),
         # same property names in the same order, another compare flag
         CS(f"{P}CmpA", (E,), F(FS("v", "prop", "int", "int", default="0"), FS("note", "prop", "str", "str", default='""'))),
         CS(f"{P}CmpB", (E,), F(FS("v", "prop", "int", "int", default="0"), FS("note", "prop", "str", "str", compare=False, default='""'))),
